@@ -18,7 +18,7 @@ func runObs3(c *hlib.Ctx, n int) {
 			rays = 2
 		}
 		for j := 0; j < rays && i < n; j++ {
-			r, class := genRay3(c, sh.col)
+			r, class := genRaySh3(c, sh)
 			o := observe3(sh.col, r)
 			checkContract(c, "3", sh.kind, descRay3(sh.name, r, class), o)
 			c.Stat("ray."+class, 1)
@@ -51,7 +51,7 @@ func runSurface(c *hlib.Ctx, n int) {
 		}
 		for j := 0; j < 4 && i < n; j++ {
 			i++
-			r, class := genRay3(c, sh.col)
+			r, class := genRaySh3(c, sh)
 			o := observe3(sh.col, r)
 			if o.failure != "" {
 				continue
@@ -154,6 +154,11 @@ func runParity(c *hlib.Ctx, n int) {
 				continue
 			}
 			dir := randUnit3(c).Scale(nonUnitScale(c))
+			if sh.axis != (v3{}) && finite(sh.axis.X, sh.axis.Y, sh.axis.Z) && c.Rng.Intn(3) == 0 {
+				// exactly along the axis of a capsule / cylinder / cone (or of its image under a transform)
+				dir = alongAxis(c, sh)
+				c.Stat("parity.along-axis."+sh.kind, 1)
+			}
 			if sh.proj2 != nil && c.Rng.Intn(3) == 0 {
 				// nearly vertical through a profile collider: an xy component of 1e-14 .. 1e-18 (what is left of a
 				// horizontal component after a rotation by a right angle); the projected 2-D ray has a tiny direction
